@@ -209,7 +209,7 @@ class Hist:
         join = lambda groups: ','.join(sum(groups, [])) or '-'
         base = self.ptoks()
         cands = [base] + [self.vary(base) for _ in range(1 + rng.below(2))]
-        conds = []
+        conds = list(self.active[3])         # rules the mocker's When already owns stay in front (first match wins)
         for c in cands:
             cond, res = join(c), self.toks(self.sig.results)
             if cond in [x for x, _ in conds]:
